@@ -117,6 +117,10 @@ def run(ctx: Ctx):
     ctx.not_decided += ["gamma-cat/gamma-k <= 1 and == 1 on perfect categorisation (run-time consequences)", "the experimental unit/empty term is taken as specified by the property"]
     ctx.assumptions += ["dissimilarity.positional_dissim.d / categorical_dissim.d are the functions checked by C04"]
     M = ctx.model
+    # gamma_k_disorder reads the unit-to-unit forms d(); alignments read the compiled forms: both must be the documented function (C04's rules, run here too)
+    from .c04 import rule_forms
+    ctx.clauses.append("R-C04-1..4 (shared with C04) every dissimilarity's unit-to-unit form d(), which the categorical disorder is computed with, is the same function as its compiled form and the documented formula")
+    rule_forms(ctx)
     check_unitary_record(ctx, "R-C12-1")
     f = ctx.fn(FN, "R-C12-1")
     sn, dp, cp = f.self_name, f.params[1], f.params[2]
